@@ -2,7 +2,8 @@
 import time
 from explore import Job, run_jobs, generic_search, generic_replay
 import c07lib as L
-from c07lib import WbInst, MasterMemMonitor, SlaveSideMonitor, Both, ClassicMaster, BurstMaster, RefSlave, CsrGen
+from c07lib import (WbInst, MasterMemMonitor, SlaveSideMonitor, Both, ClassicMaster, BurstMaster, RefSlave, CsrGen,
+                    EnvSlaveCheck, EnvCsrCheck, Guarded)
 
 
 def words_init(n, nb, f):
@@ -48,7 +49,10 @@ def direct_inst(name, kind, dw, aw, mode="A"):
         alpha = L.with_slave(ml, [(0, 0, 0), (1, L.lane_values(nb)[1], 0), (0, 0, 1), (1, 0, 1)])
         return WbInst(name, top, lean_open, alphabet=alpha, kind="adapter", monitor=lambda: SlaveSideMonitor())
     rs = RefSlave(nb)
-    mon = lambda: Both(MasterMemMonitor(nb, 1 << 40, max_wait=40, backing=rs), SlaveSideMonitor())
+
+    def mon():
+        env = EnvSlaveCheck(nb, max_silent=rs.max_silent)
+        return Guarded(env, MasterMemMonitor(nb, 1 << 40, max_wait=rs.request_cycles + 2, backing=env), SlaveSideMonitor())
     return WbInst(name, top, lean_open, kind="adapter", master_gen=ClassicMaster(nb, (1 << aw) - 1, cti_random=True),
                   slave_gen=rs, monitor=mon)
 
@@ -129,7 +133,13 @@ def conv_inst(name, dwm, dws, awm, mode="A", adrs=None, sels=None, ctis=((0, 0),
                              slave_letters)
         return WbInst(name, top, lean_open, alphabet=alpha, kind="adapter", monitor=lambda: SlaveSideMonitor())
     rs = RefSlave(nbs)
-    mon = lambda: Both(MasterMemMonitor(nbm, 1 << 40, max_wait=40 * max(1, dwm // dws), backing=rs), SlaveSideMonitor())
+    # liveness bound from the environment's own bound (down_ack_within / up_ack_same_cycle): every sub-word request
+    # lasts at most D = L + 2 cycles, a skipped sub-word 1 cycle
+    kmax = max(1, dwm // dws) * rs.request_cycles + 2
+
+    def mon():
+        env = EnvSlaveCheck(nbs, max_silent=rs.max_silent)
+        return Guarded(env, MasterMemMonitor(nbm, 1 << 40, max_wait=kmax, backing=env), SlaveSideMonitor())
     return WbInst(name, top, lean_open, kind="adapter", master_gen=ClassicMaster(nbm, (1 << awm) - 1, cti_random=True),
                   slave_gen=rs, monitor=mon)
 
@@ -174,7 +184,11 @@ def remap_inst(name, dw, aw, origin, size, regions, addressing="word", depth=Non
             alpha = L.with_slave(ml, [(0, 0, 0), (1, L.lane_values(nb)[1], 0), (0, 0, 1)])
             return WbInst(name, top, lean_open, alphabet=alpha, kind="adapter", monitor=lambda: SlaveSideMonitor())
         rs = RefSlave(nb, adr_shift=L.log2i(nb) if addressing == "byte" else 0)
-        mon = lambda: Both(MasterMemMonitor(nb, 1 << 48, max_wait=40, adr_map=wmap, backing=rs), SlaveSideMonitor())
+
+        def mon():
+            env = EnvSlaveCheck(nb, adr_shift=rs.adr_shift, max_silent=rs.max_silent)
+            return Guarded(env, MasterMemMonitor(nb, 1 << 48, max_wait=rs.request_cycles + 2, adr_map=wmap, backing=env),
+                           SlaveSideMonitor())
         return WbInst(name, top, lean_open, kind="adapter",
                       master_gen=ClassicMaster(nb, (1 << aw_sig) - 1, hot_adrs=hot_adrs),
                       slave_gen=rs, monitor=mon)
@@ -190,8 +204,8 @@ def wb2csr_inst(name, dw, aw, register, caw=14, mode="A", adrs=None, addressing=
     shift = L.log2i(nb) if addressing == "byte" else 0
     top = L.build_wb2csr(dw, aw, register, caw, addressing)
     lean_open = P("wb2csr", nb, int(register), shift, caw)
-    mon = lambda: MasterMemMonitor(nb, 1 << 40, max_wait=4, write_mask_all=True,
-                                   adr_map=lambda a: (a >> shift) % (1 << caw))
+    mon = lambda: Guarded(EnvCsrCheck(), MasterMemMonitor(nb, 1 << 40, max_wait=4, write_mask_all=True,
+                                                          adr_map=lambda a: (a >> shift) % (1 << caw)))
     aw = aw + shift
     if mode == "A":
         ml = L.master_letters(nb, adrs, range(1 << nb), L.lane_values(nb))
@@ -227,11 +241,17 @@ def cache_inst(name, cachesize, dwm, dws, awm, aws, reverse=True, depth=None, in
         def backing(a):
             sw = a // nbs
             return 0 if (sw >> tagshift) == 0 else (a * 37 + 11) & 0xFF
-        mon = lambda: Both(MasterMemMonitor(nbm, 1 << 40, max_wait=60 * (1 << g["wordbits"]) + 20,
-                                            init_fn=backing, byte_map=byte_map), SlaveSideMonitor())
+        rs = RefSlave(nbs, init_fn=backing, garbage=False)
+        # cache_ack_within: 3 + 2 * 2^wordbits * D cycles with D = L + 2 the duration of one slave-side request
+        kmax = 3 + 2 * (1 << g["wordbits"]) * rs.request_cycles + 2
+
+        def mon():
+            env = EnvSlaveCheck(nbs, init_fn=backing, max_silent=rs.max_silent, check_unselected=True)
+            return Guarded(env, MasterMemMonitor(nbm, 1 << 40, max_wait=kmax, init_fn=backing, byte_map=byte_map),
+                           SlaveSideMonitor())
         return WbInst(name, top, lean_open, kind="adapter",
                       master_gen=ClassicMaster(nbm, min((1 << awm) - 1, cachesize * 8), hot=12),
-                      slave_gen=RefSlave(nbs, init_fn=backing, garbage=False), monitor=mon)
+                      slave_gen=rs, monitor=mon)
     lean_open = P("cache_sram", *cp, depth, aws, *init)
     mon = lambda: MasterMemMonitor(nbm, depth * nbs, init_bytes(init, nbs), byte_map=byte_map,
                                    max_wait=8 * (1 << L.log2i(max(dwm // dws, 1))) + 8)
